@@ -109,6 +109,13 @@ class C14(Property):
         "classify", "build_modules_for_cds", "CDSModuleInfo", "combine_modules")] + [
         (DI, "generate_domains"),
         ("antismash/common/hmmscan_refinement.py", "HMMResult.detailed_names"),
+        ("antismash/common/hmmscan_refinement.py", "HMMResult.__init__"),
+        ("antismash/common/hmmscan_refinement.py", "HMMResult.add_internal_hits"),
+        ("antismash/common/hmmscan_refinement.py", "HMMResult.overlaps_with"),
+        ("antismash/common/hmmscan_refinement.py", "HMMResult.to_json"),
+        ("antismash/common/hmmscan_refinement.py", "HMMResult.from_json"),
+        ("antismash/common/hmmscan_refinement.py", "HMMResult.__eq__"),
+        (DI, "CDSResult.to_json"), (DI, "CDSResult.from_json"),
     ]
     RULE = ("domain sequences over the full alphabet of the tree under test (every label of CLASSIFICATIONS, "
             "PKS_KS with trans-AT / iterative / other / stacked subtypes): (1) exhaustive strings over a "
@@ -178,6 +185,41 @@ class C14(Property):
         elif rng.random() < 0.03:
             subs = [rng.choice(["Trans-AT-KS", "Iterative-KS", "x"])]
         return l, subs
+
+    def rand_tree(self, rng: random.Random, depth: int) -> List[Any]:
+        if depth == 0:
+            label = rng.choice(self.alphabet()) if rng.random() < 0.9 else "bad-domain-name"
+            start = rng.choice([0, 5, 100])
+            end = start + rng.choice([1, 10, 200])
+        else:
+            label = rng.choice(["Trans-AT-KS", "Iterative-KS", "KS_clade_7", "x", "PKS_KS"])
+            start, end = 0, 0
+        n = 0 if depth >= 3 else rng.choice([0, 0, 1, 1, 1, 1, 2, 3])
+        node = [label, start, end, rng.choice([0, 1, 3]), rng.choice([10, 50]), []]
+        for _ in range(n):
+            child = self.rand_tree(rng, depth + 1)
+            if rng.random() < 0.9:      # overlapping the parent (partially or fully)
+                child[1] = node[1] + rng.choice([0, 0, 1, -3])
+                child[2] = max(child[1] + 1, node[2] + rng.choice([0, 0, -1, 4]))
+            else:                       # touching or disjoint: the constructor must refuse
+                child[1] = node[2] + rng.choice([0, 1, 7])
+                child[2] = child[1] + 5
+            # children were generated before their coordinates were fixed: re-place their own children
+            self._refit(rng, child)
+            node[5].append(child)
+        return node
+
+    def _refit(self, rng: random.Random, node: List[Any]) -> None:
+        for child in node[5]:
+            if rng.random() < 0.93:
+                child[1] = node[1]
+                child[2] = max(node[1] + 1, node[2] - rng.choice([0, 0, 1]))
+                if child[2] <= node[1]:
+                    child[2] = node[1] + 1
+            else:
+                child[1] = node[2]
+                child[2] = node[2] + 3
+            self._refit(rng, child)
 
     def cls(self, rng: random.Random, key: str) -> str:
         self.alphabet()
@@ -299,6 +341,9 @@ class C14(Property):
         yield {"kind": "label", "label": sorted(mi.KETOSYNTHASES)[0], "subtypes": ["Trans-AT-KS", "x"]}
 
         scale = 10 if deep else 1
+        # HMMResult trees: constructor overlap check, detailed_names, to_json/from_json, Component on top
+        for _ in range(600 * scale):
+            yield {"kind": "hmm", "tree": self.rand_tree(rng, 0), "locus": "" if rng.random() < 0.03 else "g"}
         # ---- exhaustive small scope
         beh = self.behavioural()
         total = 0
@@ -446,6 +491,45 @@ class C14(Property):
         assert c.subtypes == case["subtypes"]
         return {"classification": classification, "flags": [bool(f) for f in flags], "subtype": c.subtype}
 
+    def _impl_hmm(self, case: Dict[str, Any]) -> Dict[str, Any]:
+        from antismash.common.hmmscan_refinement import HMMResult
+        mi = _mi()
+
+        def construct(node: List[Any]) -> Any:
+            children = [construct(c) for c in node[5]]
+            return HMMResult(node[0], node[1], node[2], node[3], node[4], internal_hits=children)
+
+        def tree(h: Any) -> List[Any]:
+            assert float(int(h.evalue)) == h.evalue and float(int(h.bitscore)) == h.bitscore
+            return [h.hit_id, int(h.query_start), int(h.query_end), int(h.evalue), int(h.bitscore),
+                    [tree(c) for c in h.internal_hits]]
+
+        def canon(data: Dict[str, Any]) -> List[Any]:
+            assert set(data) <= {"hit_id", "query_start", "query_end", "evalue", "bitscore", "internal_hits"}
+            inner = None
+            if "internal_hits" in data:
+                inner = [canon(d) for d in data["internal_hits"]]
+            return [data["hit_id"], int(data["query_start"]), int(data["query_end"]), int(data["evalue"]),
+                    int(data["bitscore"]), inner]
+
+        h = construct(case["tree"])
+        data = json.loads(json.dumps(h.to_json()))
+        again = HMMResult.from_json(data)
+        out: Dict[str, Any] = {"names": list(h.detailed_names), "json": canon(data), "tree": tree(h),
+                               "reloaded": tree(again),
+                               "reload_eq": bool(again == h and again.detailed_names == h.detailed_names
+                                                 and again.to_json() == h.to_json())}
+        try:
+            comp = mi.Component(h, case["locus"])
+            assert comp.subtypes == h.detailed_names[1:]
+            assert comp.subtype == (h.detailed_names[1] if len(h.detailed_names) > 1 else None)
+            cagain = mi.Component.from_json(json.loads(json.dumps(comp.to_json())))
+            out["component"] = comp_json(comp)
+            out["reload_eq"] = out["reload_eq"] and comp_json(cagain) == comp_json(comp) and cagain.domain == h
+        except (ValueError, AssertionError) as exc:
+            out["component"] = {"err": err_kind(exc)}
+        return out
+
     def _impl_build(self, case: Dict[str, Any]) -> Dict[str, Any]:
         mi = _mi()
         mods = mi.build_modules_for_cds([make_domain(d) for d in case["domains"]], case["name"])
@@ -501,7 +585,7 @@ class C14(Property):
             record.add_region(DummyRegion(candidate_clusters=[], subregions=[sub]))
             i = j + 1
         domains = {g["name"]: [make_domain(d) for d in g["domains"]] for g in genes if g["domains"]}
-        motifs = {g["name"]: ["motif"] for g in genes if g.get("motifs")}
+        motifs = {g["name"]: [make_domain(["NRPS-motif", [], 3, 9])] for g in genes if g.get("motifs")}
         with patch.object(di, "get_fasta_from_features", return_value=""), \
                 patch.object(di, "find_domains", return_value=domains), \
                 patch.object(di, "find_subtypes", return_value={}), \
@@ -514,7 +598,17 @@ class C14(Property):
             res = results.cds_results.get(cds)
             if res is None:
                 continue
-            out.append({"name": cds.get_name(), "modules": [mod_json(m) for m in res.modules]})
+            # the whole per-gene result through its own JSON form (CDSResult.to_json / from_json)
+            try:
+                again = di.CDSResult.from_json(json.loads(json.dumps(res.to_json())))
+                cds_reload: Any = (len(again.modules) == len(res.modules)
+                                   and all(_identity_state(a) == _identity_state(b)
+                                           for a, b in zip(again.modules, res.modules))
+                                   and again.domain_hmms == res.domain_hmms and again.motif_hmms == res.motif_hmms)
+            except Exception as exc:  # pylint: disable=broad-except
+                cds_reload = err_kind(exc)
+            out.append({"name": cds.get_name(), "modules": [mod_json(m) for m in res.modules],
+                        "cds_reload": cds_reload})
         return {"genes": out}
 
     # ------------------------------------------------------------------ driver protocol
@@ -523,6 +617,8 @@ class C14(Property):
         line: Dict[str, Any] = {"kind": kind}
         if kind == "label":
             line.update(label=case["label"], subtypes=case["subtypes"])
+        elif kind == "hmm":
+            line.update(tree=case["tree"], locus=case["locus"])
         elif kind == "build":
             line.update(name=case["name"], domains=case["domains"], impl_modules=spec_view(obs.get("modules", [])))
         elif kind == "replay":
@@ -594,6 +690,19 @@ class C14(Property):
             return Judgement(corr, True, nontrivial=obs.get("classification") is not None, tags=("label",),
                              detail="" if corr else f"predicates differ: impl {obs} model {model}")
 
+        if kind == "hmm":
+            if "err" in obs or "err" in model:
+                corr = obs.get("err") == model.get("err")
+                # refusing a non-overlapping internal hit (ValueError) is the documented guard
+                return Judgement(corr, obs.get("err", "value-error") == "value-error", in_scope=False,
+                                 tags=("hmm", "err:" + str(obs.get("err"))),
+                                 detail="" if corr else f"implementation {obs.get('err', 'ok')} vs model {model.get('err', 'ok')}")
+            corr = all(obs[k] == model[k] for k in ("names", "json", "tree", "reloaded", "component")) and model["wf"]
+            spec_ok = obs["reload_eq"] and obs["reloaded"] == obs["tree"]
+            return Judgement(corr, spec_ok, nontrivial=len(obs["names"]) > 1 or obs["json"][5] is not None,
+                             tags=("hmm", f"names{min(len(obs['names']), 4)}"),
+                             detail="" if (corr and spec_ok) else f"hmm: impl {obs} model {model}"[:600])
+
         if "err" in obs or "err" in model:
             corr = obs.get("err") == model.get("err")
             tags.append("err:" + str(obs.get("err", "none")))
@@ -660,6 +769,8 @@ class C14(Property):
                                 "read in transcription order (upstream gene's trailing end + downstream gene's "
                                 "leading end), or modules are out of order across genes")
             for g, sg in zip(og, spec["genes"]):
+                if g.get("cds_reload") is not True:
+                    problems.append(f"{g['name']}:CDSResult reload={g.get('cds_reload')}")
                 for m, s in zip(g["modules"], sg):
                     problems += [f"{g['name']}:{p}" for p in self._module_spec(m, s)]
                     if len({c[4] for c in m["comps"]}) > 1:
@@ -729,6 +840,14 @@ class C14(Property):
             cs = case["comps"]
             for i in range(len(cs)):
                 yield dict(case, comps=cs[:i] + cs[i + 1:])
+        elif kind == "hmm":
+            def prune(node: List[Any]) -> Iterator[List[Any]]:
+                for i in range(len(node[5])):
+                    yield node[:5] + [node[5][:i] + node[5][i + 1:]]
+                    for sub in prune(node[5][i]):
+                        yield node[:5] + [node[5][:i] + [sub] + node[5][i + 1:]]
+            for t in prune(case["tree"]):
+                yield dict(case, tree=t)
         elif kind == "pair":
             for key in ("a", "b"):
                 ds = case[key]["domains"]
